@@ -59,7 +59,21 @@ func c11exec(j run.Job, a *run.Acc) {
 			}
 		}
 		if !incremental {
-			fs = parsley.NewFileSet(pf...)
+			// the caller's slice has spare capacity and the caller goes on using it: the set must have its own file table
+			callers := make([]parsley.File, len(pf), len(pf)+4)
+			copy(callers, pf)
+			fs = parsley.NewFileSet(callers...)
+			if len(raws) > 0 && len(raws)%2 == 0 {
+				extra := text.NewFile(fmt.Sprintf("f%d", len(raws)), []byte("extra\nfile"))
+				fs.AddFile(extra)
+				files = append(files, extra)
+				raws = append(raws, []byte("extra\nfile"))
+			}
+			stranger := text.NewFile("stranger", []byte("not in the set"))
+			callers = append(callers, stranger, stranger)
+			for i := range callers[:len(pf)] {
+				callers[i] = stranger
+			}
 		}
 		desc := func(extra map[string]any) map[string]any {
 			var cs []string
